@@ -6,9 +6,42 @@ From MV Require Import Dir.PyLines.
 From MV Require Import Dir.PyLinesProofs.
 From MV Require Import Dir.DirModel.
 From MV Require Import Dir.DirProofs.
+From MV Require Import Gen.LinesSrc.
 From MV Require Import Dir.Lines.
 Import ListNotations.
 Open Scope N_scope.
+
+(* ---------- the regenerated arithmetic (Gen/LinesSrc.v) in normal form ----------
+   These are the obligations an edit of the source expressions breaks; they are proved by unfolding + lia, so an
+   equivalent rewrite of an expression (1 + x, reordered sums) still passes. *)
+
+Lemma node_line_eq base idx : node_line base idx = (Z.of_nat idx + base + 1)%Z.
+Proof. unfold node_line, token_line_src, render_tokens_map0_src, nested_map0_src. lia. Qed.
+
+Lemma content_offset_eq b p : content_offset_src b p = (b - p)%Z.
+Proof. unfold content_offset_src. lia. Qed.
+
+Lemma nested_parse_lineno_eq l o : nested_parse_lineno_src l o = (l + o)%Z.
+Proof. unfold nested_parse_lineno_src. lia. Qed.
+
+Lemma hack_prepended_eq : Z.to_nat hack_prepended_src = 1%nat.
+Proof. unfold hack_prepended_src. lia. Qed.
+
+Lemma include_lineno_eq s : include_lineno_src s = (s + 1)%Z.
+Proof. unfold include_lineno_src. lia. Qed.
+
+Lemma warning_line_src_eq l p : warning_line_src l p = match l with Some x => x | None => p end.
+Proof. unfold warning_line_src. destruct l; reflexivity. Qed.
+
+Lemma include_startline0_eq s : include_startline0_src s = match s with Some x => x | None => 0%Z end.
+Proof. unfold include_startline0_src. destruct s; reflexivity. Qed.
+
+Lemma include_advance_eq s t i n :
+  include_advance_src s t i n = (s + Z.of_nat (count_nl (firstn (Z.to_nat (i + Z.of_nat (length n))) t)))%Z.
+Proof. unfold include_advance_src, count_nl_upto. lia. Qed.
+
+Lemma include_cut_eq i n : include_cut_src i n = (i + Z.of_nat (length n))%Z.
+Proof. unfold include_cut_src. lia. Qed.
 
 (* ---------- induction over nested blocks ---------- *)
 
@@ -602,14 +635,14 @@ Notation lblk := (lines_blk tokenize yaml_load sg first_line).
 Notation lseq := (lines_seq tokenize yaml_load sg first_line).
 
 Lemma lblk_Quote base idx m bs :
-  lblk base idx (Quote m bs) = (do r <- lseq base idx bs; Ok ((m, (Z.of_nat idx + base + 1)%Z) :: r)).
+  lblk base idx (Quote m bs) = (do r <- lseq base idx bs; Ok ((m, node_line base idx) :: r)).
 Proof. reflexivity. Qed.
 Lemma lblk_Item base idx m bs :
-  lblk base idx (ListItem m bs) = (do r <- lseq base idx bs; Ok ((m, (Z.of_nat idx + base + 1)%Z) :: r)).
+  lblk base idx (ListItem m bs) = (do r <- lseq base idx bs; Ok ((m, node_line base idx) :: r)).
 Proof. reflexivity. Qed.
 Lemma lblk_Div base idx m bb ba bs :
   lblk base idx (Div m bb ba bs) =
-  (do r <- lseq (Z.of_nat idx + base + 1)%Z bb bs; Ok ((m, (Z.of_nat idx + base + 1)%Z) :: r)).
+  (do r <- lseq (node_line base idx) bb bs; Ok ((m, node_line base idx) :: r)).
 Proof. reflexivity. Qed.
 
 Definition dir_hack (fk : fencekind) (content : str) : bool :=
@@ -617,12 +650,12 @@ Definition dir_hack (fk : fencekind) (content : str) : bool :=
 
 Lemma lblk_Dir base idx m fk os n bb ba bs :
   lblk base idx (Dir m fk os n bb ba bs) =
-  let position := (Z.of_nat idx + base + 1)%Z in
+  let position := node_line base idx in
   let cl := dir_content os n bb ba bs in
   let content := text_before cl in
   let hack := dir_hack fk content in
   let cl' := if hack then [] :: cl else cl in
-  let prepended := if hack then 1%nat else O in
+  let prepended := if hack then Z.to_nat hack_prepended_src else O in
   do parsed <- pdt (if hack then nl ++ content else content) (Some (Z.to_nat position)) true None;
   match bs with
   | [] => Ok [(m, position)]
@@ -633,7 +666,7 @@ Lemma lblk_Dir base idx m fk os n bb ba bs :
         | _ :: rest =>
             let d := (length cl' - length rest)%nat in
             if lines_eqb rest (skipn d cl') && Nat.leb d first_child then
-              do r <- lseq (position + (r_body_offset parsed - Z.of_nat prepended))%Z (first_child - d + 1)%nat bs;
+              do r <- lseq (nested_parse_lineno_src position (content_offset_src (r_body_offset parsed) (Z.of_nat prepended))) (first_child - d + 1)%nat bs;
               Ok ((m, position) :: r)
             else Raise AssertionError
         | [] => Raise AssertionError
@@ -641,7 +674,7 @@ Lemma lblk_Dir base idx m fk os n bb ba bs :
       else
       let d := (length cl' - length (r_body parsed))%nat in
       if lines_eqb (r_body parsed) (skipn d cl') && Nat.leb d first_child then
-        do r <- lseq (position + (r_body_offset parsed - Z.of_nat prepended))%Z (first_child - d)%nat bs;
+        do r <- lseq (nested_parse_lineno_src position (content_offset_src (r_body_offset parsed) (Z.of_nat prepended))) (first_child - d)%nat bs;
         Ok ((m, position) :: r)
       else Raise AssertionError
   end.
@@ -675,15 +708,16 @@ Proof.
     (Q := fun bs => wf_seq bs = true -> forall base idx start, Z.of_nat start = (Z.of_nat idx + base + 1)%Z ->
                     lseq base idx bs = Ok (lift (locate_seq_gen merged start bs)));
     intros Hw base idx start Hs.
-  - cbn [lines_blk locate_gen]. unfold lift. cbn [map fst snd]. rewrite map_map. cbn [fst snd]. rewrite Hs. reflexivity.
+  - cbn [lines_blk locate_gen]. rewrite node_line_eq. unfold lift. cbn [map fst snd]. rewrite map_map. cbn [fst snd]. rewrite Hs. reflexivity.
   - rewrite wf_Quote in Hw. apply andb_true_iff in Hw as [_ Hw].
-    rewrite lblk_Quote, (IHb Hw base idx start Hs), locate_Quote. cbn. rewrite Hs. reflexivity.
+    rewrite lblk_Quote, node_line_eq, (IHb Hw base idx start Hs), locate_Quote. cbn. rewrite Hs. reflexivity.
   - rewrite wf_Item in Hw. apply andb_true_iff in Hw as [_ Hw].
-    rewrite lblk_Item, (IHb Hw base idx start Hs), locate_Item. cbn. rewrite Hs. reflexivity.
-  - rewrite wf_Div in Hw. rewrite lblk_Div, locate_Div.
+    rewrite lblk_Item, node_line_eq, (IHb Hw base idx start Hs), locate_Item. cbn. rewrite Hs. reflexivity.
+  - rewrite wf_Div in Hw. rewrite lblk_Div, locate_Div, !node_line_eq.
     rewrite (IHb Hw _ _ (start + 1 + bb)%nat); [cbn; rewrite Hs; reflexivity | lia].
   - rewrite wf_Dir in Hw. apply andb_true_iff in Hw as [Hfo Hw].
     rewrite lblk_Dir, locate_Dir. cbn zeta.
+    rewrite ?node_line_eq, ?hack_prepended_eq.
     destruct (O_parse_ok
                 (if dir_hack fk (text_before (dir_content os n bb ba bs))
                  then nl ++ text_before (dir_content os n bb ba bs) else text_before (dir_content os n bb ba bs))
@@ -704,6 +738,7 @@ Proof.
       rewrite Hb, Ho. cbn [opt_lines length plus blank_lines repeat app].
       unfold dir_content. cbn [opt_lines blank_lines repeat app].
       unfold str in *. rewrite Nat.sub_diag. cbn [skipn]. rewrite lines_eqb_refl. cbn [andb Nat.leb Nat.sub Nat.add].
+      rewrite ?nested_parse_lineno_eq, ?content_offset_eq.
       rewrite (IHb Hw _ _ (start + 2 + 0)%nat); [cbn; rewrite Hs, ?Hm; reflexivity | lia].
     + (* first line is body text *)
       assert (Hfirst : bb = O -> os <> DashOpts -> plain_start b1 = true).
@@ -724,6 +759,7 @@ Proof.
       unfold str in *.
       rewrite Hd. rewrite Hcl at 1. rewrite skipn_app_length, lines_eqb_refl. cbn [andb].
       rewrite Hle, Hidx.
+      rewrite ?nested_parse_lineno_eq, ?content_offset_eq.
       rewrite (IHb Hw _ _ (start + 2 + bb)%nat); [cbn; rewrite Hs, ?Hm; reflexivity | lia].
     + (* the prepended-line case: colon directive, no options, no blank, ':::' child *)
       assert (Hcase : fk = ColonFence /\ os = NoOpts /\ bb = O).
@@ -738,6 +774,7 @@ Proof.
       unfold str in *.
       repeat match goal with |- context [(S ?x - ?x)%nat] => replace (S x - x)%nat with 1%nat by lia end.
       cbn [skipn]. rewrite lines_eqb_refl. cbn [andb Nat.leb Nat.sub].
+      rewrite ?nested_parse_lineno_eq, ?content_offset_eq.
       rewrite (IHb Hw _ _ (start + 1 + 0 + 0)%nat); [cbn; rewrite Hs, ?Hm; reflexivity | lia].
     + assert (Hfirst : bb = O -> os <> DashOpts -> plain_start b1 = true).
       { intros -> Hos. cbn [first_ok Nat.ltb Nat.leb orb] in Hfo. destruct os; try congruence.
@@ -760,6 +797,7 @@ Proof.
       unfold str in *.
       rewrite Hd. rewrite Hcl at 1. rewrite skipn_app_length, lines_eqb_refl. cbn [andb].
       rewrite Hlen, Hle.
+      rewrite ?nested_parse_lineno_eq, ?content_offset_eq.
       rewrite (IHb Hw _ _ (start + 1 + length (opt_lines os n) + bb)%nat);
         [cbn; rewrite Hs, ?Hm; reflexivity | destruct bb; cbn [min1]; unfold str in *; lia].
   - reflexivity.
@@ -794,7 +832,7 @@ Proof. intro Hw. unfold document_lines. apply lines_seq_correct; [exact Hw | ref
 Theorem include_lines_placed s body :
   wf_seq body = true ->
   include_lines tokenize yaml_load sg first_line s body = Ok (lift (locate_seq_gen merged (s + 2) body)).
-Proof. intro Hw. unfold include_lines. apply lines_seq_correct; [exact Hw | lia]. Qed.
+Proof. intro Hw. unfold include_lines. apply lines_seq_correct; [exact Hw | rewrite include_lineno_eq; lia]. Qed.
 
 End Nested.
 
@@ -944,6 +982,13 @@ Proof.
     destruct (pop_colon_lines (splitlines content)); reflexivity.
 Qed.
 
+Lemma warning_line_eq p w :
+  warning_line p w = match opt_line w with Some (Some l) => l | _ => p end.
+Proof.
+  unfold warning_line. rewrite warning_line_src_eq.
+  destruct w as [l|l|l|l|? l|? l| |]; cbn [opt_line option_map]; try destruct l; cbn [option_map]; rewrite ?Nat2Z.id; reflexivity.
+Qed.
+
 Section Warnings.
 Variable tokenize : str -> res (list (str * str) * bool).
 Variable yaml_load : str -> yres.
@@ -1011,10 +1056,10 @@ Proof.
   { destruct (nonempty bd && negb (has_content sg)).
     - apply in_app_or in Hw as [Hw|[<-|[]]]; [|auto]. destruct (H' w Hw); auto.
     - destruct (H' w Hw); auto. }
+  rewrite warning_line_eq.
   destruct Hfin as [Hin|[-> | ->]]; [|reflexivity|reflexivity].
   specialize (H0 w Hin). rewrite H0.
-  destruct w; cbn [opt_line] in H0; inv H0; cbn [warning_line];
-    destruct (startswith content dashes); reflexivity.
+  destruct (startswith content dashes); reflexivity.
 Qed.
 
 End Warnings.
@@ -1028,7 +1073,12 @@ Theorem include_lineno_plain file_lines start_line :
   let s := match start_line with Some s => s | None => O end in
   include_start file_lines start_line None =
   Some ((s + 1)%nat, join_nl (firstn (length file_lines - s) (skipn s file_lines))).
-Proof. destruct start_line; reflexivity. Qed.
+Proof.
+  cbn zeta. unfold include_start. rewrite include_startline0_eq, include_lineno_eq.
+  destruct start_line as [n|]; cbn [option_map]; rewrite ?Nat2Z.id; unfold include_select.
+  - replace (Z.to_nat (Z.of_nat n + 1)) with (n + 1)%nat by lia. reflexivity.
+  - reflexivity.
+Qed.
 
 (* start-after (after fix 451703c): the counter advances by the number of line breaks in the skipped prefix *)
 Theorem include_lineno_start_after file_lines start_line needle ln text :
@@ -1039,7 +1089,9 @@ Theorem include_lineno_start_after file_lines start_line needle ln text :
 Proof.
   unfold include_start. cbn zeta.
   destruct (find_sub _ _ needle) as [i|]; [|discriminate].
-  intro H. inv H. eexists. split; [symmetry; apply firstn_skipn | reflexivity].
+  rewrite include_startline0_eq, include_lineno_eq, include_advance_eq, include_cut_eq.
+  intro H. inv H. eexists. split; [symmetry; apply firstn_skipn|].
+  destruct start_line as [n|]; cbn [option_map]; rewrite ?Nat2Z.id; lia.
 Qed.
 
 (* true lines are off by exactly one: the first line of an included file is reported as line 2 *)
@@ -1129,4 +1181,21 @@ Qed.
 Lemma inline_lines tokenize yaml_load sg first_line base idx k m more ins :
   lines_blk tokenize yaml_load sg first_line base idx (Leaf k m more ins) =
   Ok ((m, (Z.of_nat idx + base + 1)%Z) :: map (fun p => (fst p, (Z.of_nat idx + base + 1)%Z)) ins).
-Proof. reflexivity. Qed.
+Proof. rewrite <- node_line_eq. reflexivity. Qed.
+
+(* the regenerated arithmetic in normal form, collected *)
+Lemma arithmetic_src :
+  (forall base idx, node_line base idx = (Z.of_nat idx + base + 1)%Z) /\
+  (forall map0 map1, token_line_src map0 map1 = map0) /\
+  (forall map0 map1, render_tokens_map0_src map0 map1 = (map0 + 1)%Z) /\
+  (forall map0 map1 lineno, nested_map0_src map0 map1 lineno = (map0 + lineno)%Z) /\
+  (forall body_offset prepended, content_offset_src body_offset prepended = (body_offset - prepended)%Z) /\
+  (forall lineno input_offset, nested_parse_lineno_src lineno input_offset = (lineno + input_offset)%Z) /\
+  Z.to_nat hack_prepended_src = 1%nat /\
+  (forall startline, include_lineno_src startline = (startline + 1)%Z) /\
+  (forall lineno position, warning_line_src lineno position = match lineno with Some l => l | None => position end).
+Proof.
+  repeat split; intros; first [apply node_line_eq | apply content_offset_eq | apply nested_parse_lineno_eq
+    | apply hack_prepended_eq | apply include_lineno_eq | apply warning_line_src_eq
+    | (unfold token_line_src, render_tokens_map0_src, nested_map0_src; lia)].
+Qed.
